@@ -17,6 +17,8 @@ grapheme cluster is one `char` of width `cw`.
   `rewriteString_value`, `rewriteString_value_orig_partial`, `strip_value_counterexample`.
 * C03 "the words of every comment are preserved in order": `rewriteString_payload` (all inputs, all formats),
   `rewriteString_words_counterexample` (a word is cut after a punctuation character).
+* C02 "re-breaking at the same width is the identity": `rewriteString_idem_partial`,
+  `rewriteString_idem_counterexample`; the lines fit: `breakString_fits`, `rewriteString_fits`.
 * C16 (no slice out of range, termination): `breakString_bounds`, `breakString_progress`,
   `breakString_indices_in_range`, `rewriteString_terminates`.
 -/
@@ -279,5 +281,68 @@ theorem rewriteString_fits (orig : List Char) (f : Fmt) (newlineMax : Nat) (r : 
             subst h
             exact hfit
           · simp at h
+
+/-! ## C02: re-breaking what was re-broken changes nothing -/
+
+/-- `rewrite_string` reads its input only through the stripping regex. -/
+theorem rewriteString_congr (a b : List Char) (f : Fmt) (newlineMax : Nat)
+    (h : stripLineBreaks a = stripLineBreaks b) : rewriteString a f newlineMax = rewriteString b f newlineMax := by
+  unfold rewriteString rewriteRaw
+  simp only [h]
+
+/-- **Idempotence of the string-literal format** (`_partial`: the original holds no backslash directly in
+front of a line feed or a carriage return, i.e. no line continuation of its own): if `rewrite_string`
+returns `opener ++ body ++ closer`, then given `body` in the same format, shape and configuration it returns
+the very same text.  With C01's `rewriteString_value` this is the "re-indentation after string
+line-continuations" of the property: the second pass strips exactly the continuations the first one wrote. -/
+theorem rewriteString_idem_partial (orig : List Char) (f : Fmt) (newlineMax : Nat) (hf : IsStringFormat f)
+    (hno : noBsNl orig = true) (r : List Char) (h : rewriteString orig f newlineMax = .ok (some r)) :
+    ∃ body, r = f.opener ++ body ++ f.closer ∧ rewriteString body f newlineMax = .ok (some r) := by
+  have h0 := h
+  unfold rewriteString at h
+  cases h1 : f.maxWidthWithIndent with
+  | none => simp [h1] at h
+  | some mwWith =>
+    cases h2 : f.maxWidthWithoutIndent with
+    | none => simp [h1, h2] at h
+    | some mwWithout =>
+      cases h3 : f.loopCfg newlineMax mwWith mwWithout with
+      | error e => simp [h1, h2, h3] at h
+      | ok k =>
+        cases h4 : rewriteRaw k f.opener f.closer orig with
+        | none => simp [h1, h2, h3, h4] at h
+        | some raw =>
+          simp only [h1, h2, h3, h4] at h
+          split at h
+          · simp only [Except.ok.injEq, Option.some.injEq] at h
+            subst h
+            obtain ⟨ht, hls, hle, hbare, hnl, _⟩ := loopCfg_ok h3
+            have hk : StringLike k :=
+              { trim := by rw [ht, hf.trim]
+                lineEnd := by rw [hle, hf.lineEnd]
+                bare := by rw [hbare]; exact all_isWs_of_all_isContWs hf.lineStart
+                indent := ⟨_, hnl, indentChars_contWs _ _⟩
+                lineStart := by rw [hls]; exact hf.lineStart }
+            obtain ⟨body, hr, hstrip, hid⟩ := rewriteRaw_restrip k hk _ _ _ _ hno h4
+            refine ⟨body, hr, ?_⟩
+            rw [rewriteString_congr body orig f newlineMax (by rw [hstrip, hid])]
+            exact h0
+          · simp at h
+
+/-- non-vacuity: a literal with escapes that is broken twice and is a fixed point afterwards -/
+example : noBsNl "Nulla\nconsequat erat\\\" at massa. Vivamus id mi.".toList = true ∧
+    rewriteString "Nulla\nconsequat erat\\\" at massa. Vivamus id mi.".toList (Fmt.new ⟨25, ⟨0, 0⟩, 0⟩ ⟨false, 4, 27, 80⟩) 23
+      = .ok (some "\"Nulla\nconsequat erat\\\" at \\\n massa. Vivamus id mi.\"".toList) ∧
+    rewriteString "Nulla\nconsequat erat\\\" at \\\n massa. Vivamus id mi.".toList (Fmt.new ⟨25, ⟨0, 0⟩, 0⟩ ⟨false, 4, 27, 80⟩) 23
+      = .ok (some "\"Nulla\nconsequat erat\\\" at \\\n massa. Vivamus id mi.\"".toList) := by decide +kernel
+
+/-- **Without the hypothesis idempotence fails**: a line continuation directly followed by an escaped
+backslash and another line continuation.  The stripping pattern consumes the character in front of a match, so
+the second continuation is only found by the second pass (known finding STR-IDEM-CONT-ESC). -/
+theorem rewriteString_idem_counterexample :
+    rewriteString "aaaaaaaa bb\\\n \\\\\\\n cc ddddd".toList (Fmt.new ⟨24, ⟨0, 0⟩, 0⟩ ⟨false, 4, 100, 80⟩) 22
+      = .ok (some "\"aaaaaaaa bb\\\\\\\n cc ddddd\"".toList) ∧
+    rewriteString "aaaaaaaa bb\\\\\\\n cc ddddd".toList (Fmt.new ⟨24, ⟨0, 0⟩, 0⟩ ⟨false, 4, 100, 80⟩) 22
+      = .ok (some "\"aaaaaaaa bb\\\\cc ddddd\"".toList) := by decide +kernel
 
 end RF.Props.StringFmt
